@@ -34,6 +34,7 @@ def handle (j : Json) : M Json := do
   | "txt_write" => opTxtWrite j
   | "txt_read" => opTxtRead j
   | "json_text" => opJsonText j
+  | "json_str" => opJsonStr j
   | "bounds" => opBounds j
   | "closed" => opClosed j
   | "parking" => opParking j
